@@ -1335,8 +1335,26 @@ struct Gen
 						break;
 					}
 			double u = r.u01() * (w_val + w_int + w_loc + w_glob + w_locate + w_pref + w_copy + w_sweep);
+			// category: 0 value 1 integral 2 local extremum 3 global extremum 4 locate 5 prefactor 6 copy 7 sweep
+			int cat = 7;
+			{
+				const double ws[8] = {w_val, w_int, w_loc, w_glob, w_locate, w_pref, w_copy, w_sweep};
+				for(int q = 0; q < 8; q++)
+				{
+					if(u < ws[q])
+					{
+						cat = q;
+						break;
+					}
+					u -= ws[q];
+				}
+			}
+			if(two_d && (cat == 1 || cat == 4))
+				cat = 0;   // the 2D class has no Integrate / Locate
+			if(two_d && cat == 2)
+				cat = 3;
 			Op o;
-			if((u -= w_val) < 0)
+			if(cat == 0)
 			{
 				double x = next_point(r, c, tab.xs, c.cursor);
 				if(two_d)
@@ -1355,7 +1373,7 @@ struct Gen
 						o = Op("deriv", {c.slot, (long long) r.pick(std::vector<long long>{0, 1, 1, 2, 2, 3, 3, 4})}, {x});
 				}
 			}
-			else if((u -= w_int) < 0 && !two_d)
+			else if(cat == 1)
 			{
 				double a = next_point(r, c, tab.xs, c.cursor);
 				long cj	 = c.cursor;
@@ -1366,7 +1384,7 @@ struct Gen
 					b = next_point(r, c, tab.xs, c.cursor);
 				o = Op("integ", {c.slot}, {a, b});
 			}
-			else if((u -= w_loc) < 0 && !two_d)
+			else if(cat == 2)
 			{
 				double a = next_point(r, c, tab.xs, c.cursor);
 				long cj	 = c.cursor;
@@ -1382,15 +1400,15 @@ struct Gen
 					std::swap(a, b);
 				o = Op(r.chance(0.5) ? "lmin" : "lmax", {c.slot}, {a, b});
 			}
-			else if((u -= w_glob) < 0 || (two_d && u < w_int + w_loc))
+			else if(cat == 3)
 			{
 				o = Op(r.chance(0.5) ? "gmin" : "gmax", {c.slot});
 			}
-			else if((u -= w_locate) < 0 && !two_d)
+			else if(cat == 4)
 			{
 				o = Op("locate", {c.slot}, {next_point(r, c, tab.xs, c.cursor)});
 			}
-			else if((u -= w_pref) < 0)
+			else if(cat == 5)
 			{
 				double f  = prefactor(r);
 				bool set  = r.chance(0.5);
@@ -1403,7 +1421,7 @@ struct Gen
 				net[c.slot] = nn;
 				o			= Op(set ? "setpref" : "mul", {c.slot}, {f});
 			}
-			else if((u -= w_copy) < 0)
+			else if(cat == 6)
 			{
 				int mode = (int) r.below(4);
 				int dst	 = (int) r.below(4);
